@@ -507,6 +507,13 @@ def randomised(spec, acc):
             batch = pick_unrelated(rnd, mods, rnd.randint(2, 3), kind=kind)
             if len(batch) >= 2:
                 batch_alias(ev, mods, imps, [(kind, b) for b in batch], acc)
+                if rnd.random() < 0.3:
+                    # a batch that names one of its modules twice (two config lists merged): the same batch
+                    dup = [(kind, b) for b in batch]
+                    dup.insert(rnd.randint(0, len(dup)), rnd.choice(dup))
+                    batch_alias(ev, mods, imps, dup, acc)
+                    batch_alias(ev, mods, imps, [dup[0], dup[0]], acc)
+                    acc.count("alias_law_on_batches_naming_a_module_twice")
             if rnd.random() < 0.4:
                 from ..refmodel.names import is_ancestor as _anc
 
